@@ -81,6 +81,8 @@ func writeOutput(w io.Writer, cudLs chan updownLine, cErr chan error, cWriteDone
 // List gets a list of ATGC SNPs with respect to reference + ambiguous sites for each query sequence in a fasta-format
 // alignment, and writes it to file
 func List(reference, alignment io.Reader, out io.Writer) error {
+	vhook.Begin("updown.List", runtime.NumCPU())
+	defer vhook.End("updown.List")
 
 	cErr := make(chan error)
 
